@@ -17,6 +17,26 @@ import rpload
 import translate
 
 
+# alias blocks as last seen by the translator; used to drive the search for a failing input when
+# TaskDescription._verify can no longer be parsed (the broken tie is reported separately)
+FALLBACK_ALIASES = [
+    ('cpu_processes', 'ranks', 'cpu_processes', 0, False), ('cpu_threads', 'cores_per_rank', 'cpu_threads', 0, False),
+    ('cpu_thread_type', 'threading_type', 'cpu_thread_type', None, False),
+    ('gpu_processes', 'gpus_per_rank', 'gpu_processes', 0, True), ('gpu_process_type', 'gpu_type', 'gpu_process_type', None, False),
+    ('lfs_per_process', 'lfs_per_rank', 'lfs_per_process', 0, False), ('mem_per_process', 'mem_per_rank', 'mem_per_process', 0, False),
+    ('scheduler', 'raptor_id', 'scheduler', '', False), ('worker_file', 'raptor_file', 'worker_file', '', False),
+    ('worker_class', 'raptor_class', 'worker_class', '', False)]
+
+
+def tables(ctx=None):
+    try:
+        return translate.descr_tables(common.SRC)[0]
+    except Exception as e:
+        if ctx is not None:
+            ctx.notes.append('translator failed (%r): searching with the last known alias table' % e)
+        return FALLBACK_ALIASES
+
+
 def enc(v):
     if isinstance(v, float):
         return {'f': int(round(v * 16))}
@@ -60,7 +80,7 @@ def gen_descr(rng, aliases, checks, modes):
                 d[new] = rng.choice(sample['int'] if is_int else sample['str'])
     if rng.random() < 0.3:
         d['use_mpi'] = rng.choice([True, False])
-    if rng.random() < 0.3 and 'ranks' not in d:
+    if rng.random() < 0.4 and 'ranks' not in d:
         d['ranks'] = rng.choice([1, 2, 4])
     # untouched attributes that must survive
     if rng.random() < 0.5:
@@ -88,6 +108,8 @@ def monitor_descr(rp, d, td, err, aliases):
         else:
             if td[new] != inp[new]:
                 return ('replacement-changed-without-alias:%s' % new, '%r -> %r' % (inp[new], td[new]))
+    if inp['use_mpi'] is not None and td['use_mpi'] != inp['use_mpi']:
+        return ('explicit-use_mpi-overwritten', 'use_mpi=%r became %r (ranks %r)' % (inp['use_mpi'], td['use_mpi'], td['ranks']))
     for k in ('arguments', 'environment', 'priority', 'executable', 'function', 'code', 'command'):
         if td[k] != inp[k]:
             return ('attribute-lost:%s' % k, '%r -> %r' % (inp[k], td[k]))
@@ -152,7 +174,7 @@ def gen_callable(rng):
 def run(ctx):
     rp  = rpload.load()
     rng = ctx.rng
-    aliases, checks, default_mode, dflt = translate.descr_tables(common.SRC)
+    aliases = tables(ctx)
     import radical.pilot.task_description as rtd
     modes = [getattr(rtd, n) for n in dir(rtd) if n.startswith(('TASK_', 'AGENT_', 'RAPTOR_')) and
              isinstance(getattr(rtd, n), str)]
@@ -165,7 +187,7 @@ def run(ctx):
               {'mode': rtd.TASK_FUNC, 'function': 'f', 'named_env': 'e'},
               {'mode': rtd.TASK_SHELL}]
     hit = {'ValueError': 0, 'alias_applied': 0}
-    descrs = corpus + [gen_descr(rng, aliases, checks, modes) for _ in range(ctx.n(2500, 60000))]
+    descrs = corpus + [gen_descr(rng, aliases, None, modes) for _ in range(ctx.n(2500, 60000))]
     for d in descrs:
         td, err = real_verify(rp, d)
         op = {'op': 'verify', 'd': {k: enc(v) for k, v in d.items() if k in keys or k in
@@ -275,7 +297,7 @@ def run(ctx):
 def replay(ctx, data):
     rp = rpload.load()
     i  = data['input']
-    aliases, checks, default_mode, dflt = translate.descr_tables(common.SRC)
+    aliases = tables()
     if i['kind'] == 'descr':
         td, err = real_verify(rp, i['d'])
         bad = monitor_descr(rp, i['d'], td, err, aliases)
